@@ -80,6 +80,18 @@ fn gen_c06(c: &mut Choices) -> Case {
         if needy && ctx.label != "module" {
             non_module_needy = true;
         }
+        // a user's local spelled like the generated temporary, assigned in another scope: the
+        // temporary of a later call child is a different binding and must not be "captured"
+        if needy && g.c.chance(1, 8) {
+            g.label("user-local-spelled-like-the-temporary-assigned-elsewhere");
+            let nm = g.c.choose(&["_slot", "_slot2", "_x"]);
+            items.push(Item::Raw(format!(
+                "function dzs{n}() {{\n  let {nm};\n  {nm} = 1;\n  return {nm};\n}}"
+            )));
+            if let Node::El(e) = &mut node {
+                e.children = vec![Child::Expr(Ex::src("f1()", Cat::Call))];
+            }
+        }
         // the same history, but the sole child is a *parameter* of the enclosing function that is
         // named like the local assigned elsewhere: the captured copy must read the parameter
         // (declared inside the function body, after the parameters - no TDZ, not the D11 shape)
@@ -91,11 +103,16 @@ fn gen_c06(c: &mut Choices) -> Case {
             if let Node::El(e) = &mut node {
                 e.children = vec![Child::Expr(Ex::src("pz", Cat::IdentBound))];
             }
-            // (a `const pz` declared in the body would be the known D11 shape: TDZ)
-            let tpl = match g.c.pick(3) {
-                0 => format!("export const thunk{n} = (pz = x) => @H@;"),
-                1 => format!("export function thunk{n}(pz = y) {{\n  return @H@;\n}}"),
-                _ => format!("export const thunk{n} = (pz = x) => {{\n  return [@H@];\n}};"),
+            // the parameter itself is (re)assigned its own value, so that a copy captured at the
+            // head of the body is not stale (a changing value / a `const pz` in the body would
+            // be the known D11 shape)
+            let tpl = match g.c.pick(5) {
+                0 => format!("export const thunk{n} = (pz = x) => (pz = pz, @H@);"),
+                1 => format!("export function thunk{n}(pz = y) {{\n  pz = pz;\n  return @H@;\n}}"),
+                2 => format!("export const thunk{n} = (pz = x) => {{\n  pz = pz;\n  return [@H@];\n}};"),
+                // no assignment to the parameter: the other scope's `pz` must not arm anything
+                3 => format!("export const thunk{n} = (pz = x) => @H@;"),
+                _ => format!("export function thunk{n}(pz = y) {{\n  return @H@;\n}}"),
             };
             contexts_used.push("parameter-capture");
             items.push(Item::Site { tpl, node });
@@ -245,6 +262,7 @@ impl Property for C06 {
             "colliding-user-name",
             "captured-copy-armed-by-other-scope-assignment",
             "captured-copy-of-a-parameter-named-like-an-assigned-local",
+            "user-local-spelled-like-the-temporary-assigned-elsewhere",
         ]
     }
 }
